@@ -10,12 +10,15 @@ import (
 	"github.com/nspcc-dev/neo-go/pkg/core"
 	"github.com/nspcc-dev/neo-go/pkg/core/block"
 	"github.com/nspcc-dev/neo-go/pkg/core/native/nativenames"
+	"github.com/nspcc-dev/neo-go/pkg/core/state"
 	"github.com/nspcc-dev/neo-go/pkg/core/transaction"
 	"github.com/nspcc-dev/neo-go/pkg/crypto/hash"
 	"github.com/nspcc-dev/neo-go/pkg/crypto/keys"
 	"github.com/nspcc-dev/neo-go/pkg/neotest"
 	"github.com/nspcc-dev/neo-go/pkg/neotest/chain"
 	"github.com/nspcc-dev/neo-go/pkg/smartcontract"
+	"github.com/nspcc-dev/neo-go/pkg/smartcontract/manifest"
+	"github.com/nspcc-dev/neo-go/pkg/smartcontract/nef"
 	"github.com/nspcc-dev/neo-go/pkg/smartcontract/trigger"
 	"github.com/nspcc-dev/neo-go/pkg/util"
 	"github.com/nspcc-dev/neo-go/pkg/vm/opcode"
@@ -99,7 +102,10 @@ func pubBytes(ps []*keys.PrivateKey) []byte {
 
 // acct is a standard account the harness holds the keys of: single signature (m == 0) or m-of-n.
 type acct struct {
-	name   string
+	contract bool  // a deployed contract with a `verify` method (no keys)
+	cost     int64 // contract: datoshi its verification consumes (observed with plenty of gas)
+	returns  bool  // contract: what `verify` returns
+	name     string
 	privs  []*keys.PrivateKey // public-key order
 	m      int
 	script []byte
@@ -117,6 +123,29 @@ func multiAcct(name string, m int, ps []*keys.PrivateKey) *acct {
 		panic(err)
 	}
 	return &acct{name: name, privs: ps, m: m, script: s, hash: hash.Hash160(s)}
+}
+
+// deployVerifier deploys a hand-assembled contract whose `verify()` runs `nops` NOPs and returns `ret`.
+func (w *world) deployVerifier(name string, nops int, ret bool) *acct {
+	var script []byte
+	for i := 0; i < nops; i++ {
+		script = append(script, byte(opcode.NOP))
+	}
+	if ret {
+		script = append(script, byte(opcode.PUSHT))
+	} else {
+		script = append(script, byte(opcode.PUSHF))
+	}
+	script = append(script, byte(opcode.RET))
+	ne, err := nef.NewFile(script)
+	if err != nil {
+		panic(err)
+	}
+	m := manifest.NewManifest(name)
+	m.ABI.Methods = []manifest.Method{{Name: manifest.MethodVerify, Offset: 0, Parameters: []manifest.Parameter{}, ReturnType: smartcontract.BoolType, Safe: true}}
+	h := state.CreateContractHash(w.e.Validator.ScriptHash(), ne.Checksum, name)
+	w.e.DeployContract(w.tb, &neotest.Contract{Hash: h, NEF: ne, Manifest: m}, nil)
+	return &acct{contract: true, returns: ret, name: name, hash: h}
 }
 
 func pushData1(b []byte) []byte {
